@@ -118,11 +118,9 @@ Fixpoint filter_false (es : list vtree) : option (list vtree) :=
       end
   end.
 
-(* the error raised for a bad assertion is "no matching overload for unary_not" with the
-   tree `! predicate.assert`, which tree_dump handles *)
 Definition cel_filter (es : list vtree) : raw :=
   match filter_false es with
-  | None => RRaise true
+  | None => RRaise
   | Some k => RVal (VList k)
   end.
 
@@ -151,7 +149,7 @@ Definition dump_key_ok (k : vtree) : bool :=
 
 Fixpoint dumpable (v : vtree) : bool :=
   match v with
-  | VOther _ | VErr _ => false
+  | VOther _ | VErr => false
   | VList l => forallb dumpable l
   | VMap kvs =>
       (fix go (kvs : list (vtree * vtree)) : bool :=
@@ -209,45 +207,32 @@ Definition p2k (loc : string) (ps : list vtree) : res (option outcome) :=
 Definition msg_bad_structure (loc : string) : string := "Bad structure for `" ++ loc ++ "`".
 Definition msg_eval_exn (loc : string) : string := "Error evaluating `" ++ loc ++ "`: ".
 
-(* on the raw result of the predicates program:
-     try:    raw = predicates.evaluate(inputs)
-             if err := check_for_celevalerror(raw, location): return err
-             if not isinstance(raw, ListType): return PermFail("Bad structure ...")
-             return predicate_to_koreo_result(raw, location)
-     except celpy.CELEvalError as err:  tree = tree_dump(err.tree) ...   # unprotected
-     except Exception as err:           return PermFail(f"Error evaluating `{location}`: {err}") *)
-Definition fail_exn (loc : string) : outcome := PermFail (Some (msg_eval_exn loc)) (Some loc).
-
-Definition evaluate_predicates_raw (r : raw) (loc : string) : res (option outcome) :=
+(* on the raw result of the predicates program *)
+Definition evaluate_predicates_raw (r : raw) (loc : string) : option outcome :=
   match r with
-  | RRaise true => Done (Some (fail_eval loc))
-  | RRaise false => Raised IndexError
-  | RRaiseOther => Done (Some (fail_exn loc))
+  | RRaise => Some (fail_eval loc)
+  | RRaiseOther => Some (PermFail (Some (msg_eval_exn loc)) (Some loc))
   | RVal v =>
-      match first_err v with
-      | Some true => Done (Some (fail_eval loc))
-      | Some false => Done (Some (fail_exn loc))          (* tree_dump raised inside the try *)
-      | None =>
-           match v with
+      if scan v then Some (fail_eval loc)
+      else match v with
            | VList ps =>
                match p2k loc ps with
-               | Done o => Done o
-               | Raised _ => Done (Some (fail_exn loc))
+               | Done o => o
+               | Raised _ => Some (PermFail (Some (msg_eval_exn loc)) (Some loc))
                end
-           | _ => Done (Some (PermFail (Some (msg_bad_structure loc)) (Some loc)))
+           | _ => Some (PermFail (Some (msg_bad_structure loc)) (Some loc))
            end
-      end
   end.
 
 (* [None] predicates: no program was prepared (no conditions in the spec) *)
-Definition evaluate_predicates_opt (r : option raw) (loc : string) : res (option outcome) :=
+Definition evaluate_predicates_opt (r : option raw) (loc : string) : option outcome :=
   match r with
-  | None => Done None
+  | None => None
   | Some r => evaluate_predicates_raw r loc
   end.
 
 (* the whole pipeline on the evaluated elements of a (non-empty) predicate list *)
-Definition evaluate_predicates (es : list vtree) (loc : string) : res (option outcome) :=
+Definition evaluate_predicates (es : list vtree) (loc : string) : option outcome :=
   evaluate_predicates_raw (cel_filter es) loc.
 
 (* ---------- reconcile_value_function ---------- *)
@@ -272,9 +257,8 @@ Definition reconcile_vf (f : vfn) (base : option (list (vtree * vtree))) (loc : 
   : res (uoutcome vtree) * list site :=
   let t0 := trace_of SPre (vf_pre f) in
   match evaluate_predicates_opt (vf_pre f) (sloc loc "preconditions") with
-  | Raised e => (Raised e, t0)
-  | Done (Some o) => (Done (UOut o), t0)
-  | Done None =>
+  | Some o => (Done (UOut o), t0)
+  | None =>
       match vf_return f with
       | None => (Done (UVal VNull), t0)
       | Some (idx, rr) =>
@@ -283,12 +267,10 @@ Definition reconcile_vf (f : vfn) (base : option (list (vtree * vtree))) (loc : 
             (evaluate_overlay idx rr (match base with Some b => b | None => [] end)
                               (sloc loc "return"), t1 ++ [SReturn]) in
           match evaluate (vf_locals f) (sloc loc "locals") with
-          | Raised e => (Raised e, t1)
-          | Done (EFail o) => (Done (UOut o), t1)
-          | Done (EVal (VMap _)) => go
-          | Done ENone | Done (EVal VNull) => go   (* `case None` also catches a null value *)
-          | Done (EVal _) =>
-              (Done (UOut (PermFail (Some msg_bad_locals) (Some (sloc loc "locals")))), t1)
+          | EFail o => (Done (UOut o), t1)
+          | EVal (VMap _) => go
+          | ENone | EVal VNull => go          (* `case None` also catches a null value *)
+          | EVal _ => (Done (UOut (PermFail (Some msg_bad_locals) (Some (sloc loc "locals")))), t1)
           end
       end
   end.
@@ -307,43 +289,39 @@ Section RF.
     rf_return : option raw
   }.
 
-  (* from reconcile_krm_resource on: t1 = the sites evaluated so far *)
-  Definition rf_after_locals (f : rfn) (loc : string) (t1 : list site)
-    : res (option (uoutcome vtree)) * list site * list call :=
-    let '(r, calls) := krm (rf_locals f) in
-    match r with
-    | UOut o => (Done (Some (UOut o)), t1 ++ [SResource], calls)
-    | UVal _ =>
-        let t2 := t1 ++ [SResource] ++ trace_of SPost (rf_post f) in
-        match evaluate_predicates_opt (rf_post f) (sloc loc "postconditions") with
-        | Raised e => (Raised e, t2, calls)
-        | Done (Some o) => (Done (Some (UOut o)), t2, calls)
-        | Done None =>
-            (match evaluate (rf_return f) (sloc loc "return") with
-             | Raised e => Raised e
-             | Done ENone => Done None
-             | Done (EVal v) => Done (Some (UVal v))
-             | Done (EFail o) => Done (Some (UOut o))
-             end, t2 ++ trace_of SReturn (rf_return f), calls)
-        end
-    end.
-
   (* outcome, sites evaluated by reconcile_resource_function itself, API calls *)
-  Definition reconcile_rf (f : rfn) (loc : string)
-    : res (option (uoutcome vtree)) * list site * list call :=
+  Definition reconcile_rf (f : rfn) (loc : string) : option (uoutcome vtree) * list site * list call :=
     let t0 := trace_of SPre (rf_pre f) in
     match evaluate_predicates_opt (rf_pre f) (sloc loc "preconditions") with
-    | Raised e => (Raised e, t0, [])
-    | Done (Some o) => (Done (Some (UOut o)), t0, [])
-    | Done None =>
+    | Some o => (Some (UOut o), t0, [])
+    | None =>
         let t1 := t0 ++ trace_of SLocals (rf_locals f) in
         let bad := PermFail (Some msg_bad_locals) (Some (sloc loc "locals")) in
-        match evaluate (rf_locals f) (sloc loc "locals") with
-        | Raised e => (Raised e, t1, [])
-        | Done (EFail o) => (Done (Some (UOut o)), t1, [])
-        | Done ENone | Done (EVal VNull) => rf_after_locals f loc t1
-        | Done (EVal (VMap _)) => rf_after_locals f loc t1
-        | Done (EVal _) => (Done (Some (UOut bad)), t1, [])
+        match
+          match evaluate (rf_locals f) (sloc loc "locals") with
+          | EFail o => Some o
+          | ENone | EVal VNull => None
+          | EVal (VMap _) => None
+          | EVal _ => Some bad
+          end
+        with
+        | Some o => (Some (UOut o), t1, [])
+        | None =>
+            let '(r, calls) := krm (rf_locals f) in
+            match r with
+            | UOut o => (Some (UOut o), t1 ++ [SResource], calls)
+            | UVal _ =>
+                let t2 := t1 ++ [SResource] ++ trace_of SPost (rf_post f) in
+                match evaluate_predicates_opt (rf_post f) (sloc loc "postconditions") with
+                | Some o => (Some (UOut o), t2, calls)
+                | None =>
+                    (match evaluate (rf_return f) (sloc loc "return") with
+                     | ENone => None
+                     | EVal v => Some (UVal v)
+                     | EFail o => Some (UOut o)
+                     end, t2 ++ trace_of SReturn (rf_return f), calls)
+                end
+            end
         end
     end.
 End RF.
